@@ -75,7 +75,7 @@ theorem cluster_step_h (c : Cfg) {s s' : State} {l : Label} (hA : InvA c s) (x :
   cases l <;> simp only [step] at st <;> (repeat' split at st) <;>
     (first | (simp at st; done) | skip) <;>
     simp only [Option.some.injEq] at st <;> subst st <;>
-    simp only [upd, lockS, unlockS, newHelper] at * <;> grind [HPc.cluster]
+    simp only [upd, lockS, unlockS, newHelper, nestOn, csOn, nestOff] at * <;> grind [HPc.cluster]
 
 /-- a helper at the futex load / `FUTEX_WAIT` entry with the futex reset: every step of its own leads towards `pollW` -/
 theorem wl0_step (c : Cfg) {s s' : State} {l : Label} (hA : InvA c s) (x : Nat) (hw : (s.hpc x).wl = true) (h0 : s.futex x = 0)
@@ -88,7 +88,7 @@ theorem wl0_step (c : Cfg) {s s' : State} {l : Label} (hA : InvA c s) (x : Nat) 
     simp only [step] at st <;> (repeat' split at st) <;>
     (first | (simp at st; done) | skip) <;>
     simp only [Option.some.injEq] at st <;> subst st <;>
-    simp only [upd, lockS, unlockS, newHelper] at * <;> grind [HPc.wl, wlRankH]
+    simp only [upd, lockS, unlockS, newHelper, nestOn, csOn, nestOff] at * <;> grind [HPc.wl, wlRankH]
 
 theorem wl0_enabled (c : Cfg) {s : State} (x : Nat) (hw : (s.hpc x).wl = true) : Enabled (step c) (hOwn x) s := by
   obtain ⟨l, h1, h2⟩ := helper_no_stuck c s x (by
